@@ -32,6 +32,13 @@ class PyDictC(Value):
         self.pairs = list(pairs)
 
 
+class VNamespace(Value):
+    """spec-only record of names (final.<local>)"""
+    def __init__(self, d):
+        self.shape = None
+        self.d = dict(d)
+
+
 class _BoundExt(Value):
     """python-implemented method of a declared (stdlib) class, bound to obj"""
     def __init__(self, fn, obj):
@@ -119,6 +126,10 @@ class Executor(EvalMixin, StmtMixin):
             return VFunc(m.name + '.' + name, m.funcs[name], m)
         if name in m.classes:
             return VClass(name, m, m.classes[name])
+        ov = getattr(self.world, 'global_overrides', {}).get(m.name + '.' + name)
+        if ov is not None:
+            # module-level mutable state modelled symbolically (declared by the contracts)
+            return ov(self)
         if name in m.consts:
             sub = Executor(self.world, self.path, m, m.name, None, self.contract, parent=self)
             return sub.ev(m.consts[name])
@@ -317,6 +328,8 @@ class Executor(EvalMixin, StmtMixin):
                 v = self.ev(a.value)
                 if isinstance(v, (STup, PyList)):
                     args += list(v.items)
+                elif isinstance(v, SV) and v.shape is ValS:
+                    args.append(v)        # *<opaque sequence>: passed on as one opaque argument
                 else:
                     raise Unsupported('*args of a symbolic sequence in call to %s' % fname)
             else:
@@ -329,6 +342,8 @@ class Executor(EvalMixin, StmtMixin):
                 if isinstance(v, PyDict):
                     kwargs.update(v.d)
                     continue
+                if isinstance(v, SV) and v.shape is ValS:
+                    continue              # **<opaque mapping>: the callee is foreign code
                 raise Unsupported('**kwargs in call to %s' % fname)
             kwargs[k.arg] = self.ev(k.value)
         return self.call_value(fn, args, kwargs, fname)
@@ -403,6 +418,8 @@ class Executor(EvalMixin, StmtMixin):
 
     def call_external(self, name, args, kwargs):
         ext = self.find_external(name)
+        if ext is None and name == 'copy.copy':
+            return builtins_impl.ext_copy_copy(self, args, kwargs)
         if ext is None and name.startswith('builtins.'):
             impl = builtins_impl.BUILTINS.get(name[len('builtins.'):])
             if impl is not None:
@@ -540,6 +557,8 @@ class Executor(EvalMixin, StmtMixin):
     # ------------------------------------------------------------ spec mode
     def spec_eval(self, expr, env=None, old_store=None):
         """evaluate a contract clause (string) to a Value, no forking"""
+        if hasattr(expr, 'text'):
+            expr = expr.text()
         if isinstance(expr, str):
             try:
                 node = ast.parse(expr.strip(), mode='eval').body
@@ -671,6 +690,13 @@ class Executor(EvalMixin, StmtMixin):
                 return SV(IntS, lst.at(as_arith(i)))
             items = self.path.read_field(lst, 'items')
             return items.shape.select(items, coerce(self.path, i, IntS))
+        if fname == 'count':    # count(list, x): occurrences (ghost multiset view of the list)
+            lst = self.ev(node.args[0])
+            if isinstance(lst, SOpt):
+                lst = lst.val
+            cnt = self.path.read_field(lst, 'cnt')
+            elem = CONTAINERS[lst.shape.cls][1]
+            return cnt.shape.select(cnt, coerce(self.path, self.ev(node.args[1]), elem))
         if fname == 'fresh':    # fresh(obj): allocated during this call
             v = self.ev(node.args[0])
             if isinstance(v, SOpt):
@@ -721,44 +747,46 @@ class Executor(EvalMixin, StmtMixin):
                                                        for a, b in zip(new, old)])))
 
     def spec_quant(self, fname, gen):
-        if len(gen.generators) != 1:
-            raise ContractError('quantifier with several generators')
-        g = gen.generators[0]
-        if not isinstance(g.target, ast.Name):
-            raise ContractError('quantifier target must be a name')
-        var = g.target.id
-        dom = g.iter
-        dname = ast.unparse(dom.func) if isinstance(dom, ast.Call) else None
-        bound, guard = None, z3.BoolVal(True)
+        """all(body for x in dom [if cond] for y in dom2 ...) -> ForAll / Exists"""
+        qs, guard = [], z3.BoolVal(True)
         saved = dict(self.spec_env)
         try:
-            if dname == 'ints':
-                q = z3.Int(fresh_name(var))
-                bound = SV(IntS, q)
-            elif dname == 'reals':
-                q = z3.Real(fresh_name(var))
-                bound = SV(RealS, q)
-            elif dname == 'range':
-                q = z3.Int(fresh_name(var))
-                bound = SV(IntS, q)
-                a = [self.ev(x) for x in dom.args]
-                lo, hi = (mk_int(0), a[0]) if len(a) == 1 else (a[0], a[1])
-                guard = z3.And(q >= as_arith(self.force(lo)), q < as_arith(self.force(hi)))
-            elif dname == 'refs':
-                q = z3.Int(fresh_name(var))
-                bound = SRef(RefS(dom.args[0].value), q)
-                guard = z3.And(q >= 0, q < self.path.alloc_now())
-            elif dname == 'vals':
-                q = z3.Const(fresh_name(var), Val)
-                bound = SV(ValS, q)
-            else:
-                raise ContractError('unknown quantifier domain %s' % ast.unparse(dom))
-            self.spec_env[var] = bound
-            for cond in g.ifs:
-                guard = z3.And(guard, self.truthy(self.ev(cond)))
+            for g in gen.generators:
+                if not isinstance(g.target, ast.Name):
+                    raise ContractError('quantifier target must be a name')
+                var = g.target.id
+                dom = g.iter
+                dname = ast.unparse(dom.func) if isinstance(dom, ast.Call) else None
+                if dname == 'ints':
+                    q = z3.Int(fresh_name(var))
+                    bound = SV(IntS, q)
+                elif dname == 'reals':
+                    q = z3.Real(fresh_name(var))
+                    bound = SV(RealS, q)
+                elif dname == 'range':
+                    q = z3.Int(fresh_name(var))
+                    bound = SV(IntS, q)
+                    a = [self.ev(x) for x in dom.args]
+                    lo, hi = (mk_int(0), a[0]) if len(a) == 1 else (a[0], a[1])
+                    guard = z3.And(guard, q >= as_arith(self.force(lo)), q < as_arith(self.force(hi)))
+                elif dname == 'refs':
+                    q = z3.Int(fresh_name(var))
+                    bound = SRef(RefS(dom.args[0].value), q)
+                    guard = z3.And(guard, q >= 0, q < self.path.alloc_now())
+                elif dname == 'vals':
+                    q = z3.Const(fresh_name(var), Val)
+                    bound = SV(ValS, q)
+                else:
+                    raise ContractError('unknown quantifier domain %s' % ast.unparse(dom))
+                qs.append(q)
+                self.spec_env[var] = bound
+                for cond in g.ifs:
+                    guard = z3.And(guard, self.truthy(self.ev(cond)))
             body = self.truthy(self.ev(gen.elt))
         finally:
             self.spec_env = saved
         if fname == 'all':
-            return SV(BoolS, z3.ForAll([q], z3.Implies(guard, body)))
-        return SV(BoolS, z3.Exists([q], z3.And(guard, body)))
+            import zlib
+            qid = 'q_' + '_'.join(str(q).split('!')[0] for q in qs) + '_%d' % (zlib.crc32(ast.unparse(gen.elt).encode()) % 100000)
+            return SV(BoolS, z3.ForAll(qs, z3.Implies(guard, body), qid=qid))
+        return SV(BoolS, z3.Exists(qs, z3.And(guard, body)))
